@@ -9,7 +9,7 @@ RULE = ("genotypes: every multiset of ploidy 0..6 over alleles 0..5 (each also i
         "both directions, binomial_coefficient(n,k) for all -2<=n<=29, -2<=k<=n+2, and a malformed stream (ploidy >= 15, "
         "allele >= 16) compared on the error class; edit distance: all ordered pairs of strings of length <= 4 (quick) / "
         "5 (thorough) over a 3-letter alphabet with every band -1..6 (-1 = no band, the API's default), seeded random longer "
-        "strings (related by few edits and unrelated, str and bytes) with bands around the true distance, and a small "
+        "strings (related by few edits and unrelated) with bands around the true distance, every call of both streams made for all four argument-type combinations str/str, bytes/bytes, str/bytes, bytes/str, and a small "
         "non-ASCII stream. Non-trivial: genotype with ploidy >= 2 and >= 2 distinct alleles / index > 0 / pair of distinct "
         "genotypes / 0 < k < n; string pair with both strings non-empty and different. distinct = distinct input.")
 TRUSTED = [
@@ -110,10 +110,16 @@ def impl_binom(n, k):
     return int(binomial_coefficient(n, k))
 
 
-def impl_edit(s, t, e, as_bytes=False):
+MODES = ("str/str", "bytes/bytes", "str/bytes", "bytes/str")
+
+
+def impl_edit(s, t, e, mode=0):
+    """mode: index into MODES = python types of the two arguments (ASCII str and bytes denote the same byte string)."""
     from whatshap.align import edit_distance
-    if as_bytes:
-        s, t = s.encode(), t.encode()
+    if mode in (1, 3):
+        s = s.encode()
+    if mode in (1, 2):
+        t = t.encode()
     return int(edit_distance(s, t) if e is None else edit_distance(s, t, e))
 
 
@@ -168,6 +174,12 @@ E_L2 = """fun c => let '(s, t, ers) := c in
   forallb (fun er => Z.of_nat (edit_distance_Z s t (fst er)) =? snd er) ers"""
 
 
+def zl(xs):
+    """a list of Z; the empty list is annotated so that a file holding a single case still type-checks."""
+    xs = list(xs)
+    return term(xs) if xs else Raw("(@nil Z)")
+
+
 def evaluate(name, fns, cases, shard=400):
     """eval_checks with the cases dealt round-robin over the shards (expensive cases come in runs)."""
     n = len(cases)
@@ -197,8 +209,8 @@ def check_genotypes(ctx, inputs, label):
             cases.append(None)
             continue
         raw.append((al, n, r))
-        cases.append(term((list(al), n, r["vec"], r["idx"], r["pl"], r["sti"], r["stp"], r["rvec"], r["req"],
-                           r["fn"], r["fh"], r["fd"], r["sal"], r["dvec"], r["hidx"])))
+        cases.append(term((Raw(zl(al)), n, Raw(zl(r["vec"])), r["idx"], r["pl"], r["sti"], r["stp"], Raw(zl(r["rvec"])), r["req"],
+                           r["fn"], r["fh"], r["fd"], Raw(zl(r["sal"])), Raw(zl(r["dvec"])), r["hidx"])))
         ctx.count(("G", tuple(al)), nontrivial=len(al) >= 2 and len(set(al)) >= 2)
         ctx.tally(f"genotype.{label}")
         ctx.tally(f"genotype.ploidy.{len(al)}")
@@ -227,7 +239,7 @@ def check_unindex(ctx, inputs, label):
     for i, p, n in inputs:
         r = impl_unindex(i, p)
         raw.append((i, p, n, r))
-        cases.append(term((i, p, n, r["vec"], r["idx"], r["pl"])))
+        cases.append(term((i, p, n, Raw(zl(r["vec"])), r["idx"], r["pl"])))
         ctx.count(("U", i, p), nontrivial=i > 0 and p >= 2)
         ctx.tally(f"unindex.{label}")
     failing = evaluate("C19u", {"L1": U_L1, "L2": U_L2}, cases)
@@ -245,7 +257,7 @@ def check_pairs(ctx, pairs, label):
     for al, bl in pairs:
         r = impl_pair(al, bl)
         raw.append((al, bl, r))
-        cases.append(term((list(al), list(bl), r["lt"], r["gt"], r["eq"], r["ne"], r["ia"], r["ib"])))
+        cases.append(term((Raw(zl(al)), Raw(zl(bl)), r["lt"], r["gt"], r["eq"], r["ne"], r["ia"], r["ib"])))
         ctx.count(("P", tuple(al), tuple(bl)), nontrivial=sorted(al) != sorted(bl))
         ctx.tally(f"pairs.{label}")
     failing = evaluate("C19p", {"L1": P_L1, "L2": P_L2}, cases)
@@ -279,7 +291,7 @@ def check_malformed(ctx, als):
     for al in als:
         r = impl_genotype(al)
         raw.append((al, r is None))
-        cases.append(term((list(al), r is None)))
+        cases.append(term((Raw(zl(al)), r is None)))
         ctx.count(("M", tuple(al)), nontrivial=False)
         ctx.tally("genotype.malformed")
     failing = evaluate("C19m", {"L2": M_L2}, cases)
@@ -324,35 +336,45 @@ def codes(s):
     return [ord(c) for c in s]
 
 
-def edit_case(s, t, bands, as_bytes=False):
-    ers = []
-    for e in bands:
-        r = impl_edit(s, t, None if e is None else e, as_bytes)
-        ers.append((-1 if e is None else e, r))
-    return ers
+ALL_MODES = (0, 1, 2, 3)
 
 
-def check_edit(ctx, triples, label, fast=False, name="C19e", shard=500):
-    """triples: list of (s, t, bands[, as_bytes]); bands contain ints (-1 = explicit no band) or None (default arg)."""
+def edit_case(s, t, bands, modes=ALL_MODES):
+    """every (band, argument-type combination): list of (mode, maxdiff or -1 for the default argument, result)."""
+    out = []
+    for mode in modes:
+        for e in bands:
+            out.append((mode, -1 if e is None else e, impl_edit(s, t, e, mode)))
+    return out
+
+
+def check_edit(ctx, triples, label, fast=False, name="C19e", shard=500, modes=ALL_MODES):
+    """triples: list of (s, t, bands); bands contain ints (-1 = explicit no band) or None (default argument).
+    Every call is made for each argument-type combination in `modes`; the Coq case carries the set of distinct
+    (maxdiff, result) observations (the model and the specification do not depend on the python type)."""
     cases, raw = [], []
     for tr in triples:
         s, t, bands = tr[0], tr[1], tr[2]
-        as_bytes = len(tr) > 3 and tr[3]
-        ers = edit_case(s, t, bands, as_bytes)
-        raw.append((s, t, ers, as_bytes))
-        cases.append(term((codes(s), codes(t), [(e, r) for e, r in ers])))
-        ctx.count(("E", s, t, tuple(e for e, _ in ers)), nontrivial=bool(s) and bool(t) and s != t, k=len(ers))
+        obs = edit_case(s, t, bands, modes)
+        ers = sorted({(e, r) for _, e, r in obs})
+        raw.append((s, t, obs, ers))
+        cases.append(term((Raw(zl(codes(s))), Raw(zl(codes(t))), [(e, r) for e, r in ers])))
+        ctx.count(("E", s, t, tuple(sorted({e for e, _ in ers}))), nontrivial=bool(s) and bool(t) and s != t, k=len(obs))
         ctx.tally(f"edit.{label}.pairs")
-        ctx.tally(f"edit.{label}.calls", len(ers))
+        ctx.tally(f"edit.{label}.calls", len(obs))
+        if len(ers) != len({e for e, _ in ers}):
+            ctx.tally(f"edit.{label}.type_dependent_results")
     failing = evaluate(name, {"L1": EF_L1 if fast else E_L1, "L2": E_L2}, cases, shard=shard)
     for i in failing["L1"]:
-        s, t, ers, as_bytes = raw[i]
-        d = py_lev(s, t)
-        bad = [(e, r) for e, r in ers if not ((r == d) if (e == -1 or d <= e) else r > e)]
-        ctx.violation("editdist:not-levenshtein" if any(e == -1 for e, _ in bad) or not bad else "editdist:band-contract",
-                      f"edit_distance({s!r}, {t!r}, maxdiff) for (maxdiff, result) in {bad or ers}: Levenshtein distance is {d}",
-                      {"kind": "E", "s": s, "t": t, "bands": [e for e, _ in ers], "bytes": as_bytes})
-    l2 = [{"s": raw[i][0], "t": raw[i][1], "impl": raw[i][2]} for i in failing["L2"]]
+        s, t, obs, ers = raw[i]
+        d = py_lev(s, t)                          # only to name the offending calls in the message
+        bad = [(MODES[m], e, r) for m, e, r in obs if not ((r == d) if (e == -1 or d <= e) else r > e)]
+        sig = "editdist:not-levenshtein" if (not bad or any(e == -1 for _, e, _ in bad)) else "editdist:band-contract"
+        ctx.violation(sig,
+                      f"edit_distance({s!r}, {t!r}, maxdiff): (argument types, maxdiff, result) = {bad[:8] or ers}; "
+                      f"the Levenshtein distance is {d}",
+                      {"kind": "E", "s": s, "t": t, "bands": sorted({e for _, e, _ in obs})})
+    l2 = [{"s": raw[i][0], "t": raw[i][1], "impl": [(MODES[m], e, r) for m, e, r in raw[i][2]][:40]} for i in failing["L2"]]
     return raw, failing, l2
 
 
@@ -393,7 +415,7 @@ def gen_random_edit(rng, n, maxlen):
         bands = {None, -1, 0, 1, 2, 3, max(0, d - 2), max(0, d - 1), d, d + 1, d + 2, abs(len(s) - len(t)),
                  max(0, abs(len(s) - len(t)) - 1), len(s) + len(t) + 3, rng.randint(0, maxlen)}
         bl = sorted((b for b in bands if b is not None)) + [None]
-        out.append((s, t, bl, rng.random() < 0.3))
+        out.append((s, t, bl))
     return out
 
 
@@ -404,9 +426,9 @@ def check_nonascii(ctx):
     """str arguments with non-ASCII characters: distance over characters (code points)."""
     cases, raw = [], []
     for s, t in NONASCII:
-        ers = edit_case(s, t, [None, 1])
+        ers = sorted({(e, r) for _, e, r in edit_case(s, t, [None, 1], modes=(0,))})
         raw.append((s, t, ers))
-        cases.append(term((codes(s), codes(t), [(e, r) for e, r in ers])))
+        cases.append(term((Raw(zl(codes(s))), Raw(zl(codes(t))), [(e, r) for e, r in ers])))
         ctx.count(("E8", s, t), nontrivial=True, k=len(ers))
         ctx.tally("edit.nonascii.pairs")
     failing = evaluate("C19n", {"L1": E_L1}, cases)
@@ -448,15 +470,16 @@ def search_genotype(ctx):
 def search_edit(ctx):
     rng = ctx.rng
     cand = []
-    for s, t, bands, as_bytes in gen_random_edit(rng, 20000, 24):
+    for s, t, bands in gen_random_edit(rng, 20000, 24):
         d = py_lev(s, t)
-        for e in bands:
-            r = impl_edit(s, t, e, as_bytes)
-            ee = -1 if e is None else e
-            ok = (r == d) if (ee == -1 or d <= ee) else r > ee
-            ctx.count(("E", s, t, ee), nontrivial=bool(s) and bool(t) and s != t)
-            if not ok:
-                cand.append((s, t, [e], as_bytes))
+        for mode in ALL_MODES:
+            for e in bands:
+                r = impl_edit(s, t, e, mode)
+                ee = -1 if e is None else e
+                ok = (r == d) if (ee == -1 or d <= ee) else r > ee
+                ctx.count(("E", s, t, ee, mode), nontrivial=bool(s) and bool(t) and s != t)
+                if not ok and (s, t, [e]) not in cand:
+                    cand.append((s, t, [e]))
         if len(cand) >= 3:
             break
     if cand:
@@ -561,15 +584,14 @@ def run(ctx):
     L = ctx.n(4, 5)
     strs = list(all_strings(L))
     bands = [None, -1, 0, 1, 2, 3, 4, 5, 6]
-    triples = [(s, t, bands[1:] if (i + j) % 7 else bands, (i + j) % 5 == 0)
-               for i, s in enumerate(strs) for j, t in enumerate(strs)]
+    triples = [(s, t, bands) for s in strs for t in strs]
     t0 = time.time()
     rawe, faile, l2e = check_edit(ctx, triples, "exhaustive", shard=500)
     ctx.log(f"edit exhaustive: {len(rawe)} pairs, {time.time()-t0:.0f}s")
     ctx.extra["edit_exhaustive"] = {"alphabet": ALPHA, "maxlen": L, "strings": len(strs), "ordered_pairs": len(triples),
-                                    "bands": "-1..6 (+ default argument)"}
+                                    "bands": "-1..6 (+ default argument)", "argument_types": list(MODES)}
     ctx.exhaustive = True
-    ctx.sample({"edit_distance": [rawe[-2][0], rawe[-2][1]], "(maxdiff, result)": rawe[-2][2]})
+    ctx.sample({"edit_distance": [rawe[-2][0], rawe[-2][1]], "(maxdiff, result), same for all 4 argument-type combinations": rawe[-2][3]})
     corpus_e = [("ABCDEF", "ABXDEF", [None, 0, 1, 2]), ("", "", [None, 0]), ("", "ACGT", [None, 0, 3, 4, 5]),
                 ("GATTACA", "GCATGCU", [None, 0, 1, 2, 3, 4, 5]), ("kitten", "sitting", [None, 1, 2, 3, 4]),
                 ("A" * 40, "A" * 20 + "C" + "A" * 19, [None, 0, 1]), ("ACGT" * 10, "TGCA" * 10, [None, 5, 10, 20, 40])]
@@ -577,7 +599,7 @@ def run(ctx):
     t0 = time.time()
     rawr, failr, l2r = check_edit(ctx, corpus_e + rnd, "random", fast=True, name="C19r", shard=200)
     ctx.log(f"edit random: {len(rawr)} pairs, {time.time()-t0:.0f}s")
-    ctx.sample({"edit_distance": [rawr[-1][0], rawr[-1][1]], "(maxdiff, result)": rawr[-1][2]})
+    ctx.sample({"edit_distance": [rawr[-1][0], rawr[-1][1]], "(maxdiff, result), same for all 4 argument-type combinations": rawr[-1][3]})
     l2_all = l2e + l2r
     if l2_all:
         ctx.disagreements_checked += len(l2_all)
@@ -603,7 +625,7 @@ def replay(ctx, data):
         check_pickle(ctx, [data["al"]])
     elif k == "E":
         bands = [None if b is None else int(b) for b in data["bands"]]
-        check_edit(ctx, [(data["s"], data["t"], bands, bool(data.get("bytes")))], "replay", fast=len(data["s"]) + len(data["t"]) > 12)
+        check_edit(ctx, [(data["s"], data["t"], bands)], "replay", fast=len(data["s"]) + len(data["t"]) > 12)
     elif k == "nonascii":
         check_nonascii(ctx)
     else:
